@@ -877,6 +877,7 @@ func TestVerif_C43(t *testing.T) {
 	vk.Run(t, "C43", func(c *vk.Ctx) {
 		c.Rule("state = (datastore content: variant of local node h1, remote nodes h2/h3, IP pool, IPAM block, local workload; latest message per object emitted by the calc graph; routesByDest/localIPAMBlocks/parent device/VTEPs/host IPs of the three managers; mock route table per route class); " +
 			"transition = set(key,variant) / delete(key) delivered through ValidationFilter->CalcGraph->EventSequencer into the VXLAN, IPIP and no-encap managers, followed by flush + CompleteDeferredWork (atomic system) or with flush as a separate event (batched system); every transition replays the history on a fresh instance; " +
+			"manager-level system: state = latest message per object + manager internals + route table, transition = one RouteUpdate/RouteRemove/VTEP update/VTEP remove/HostMetadata message or apply; " +
 			"non-trivial = flushed state with a pool and a block in the datastore and at least one programmed route")
 		c.Assume("IPv4 universe and an IPv6 twin (dual-stack nodes, VXLAN-v6 and no-encap-v6 managers; IPIP is IPv4 only), never both pools at once; the datastore is in sync before the first explored update; the parent interface (eth0, carrying the local node address) exists in the mock netlink dataplane, so the managers find it synchronously as soon as the local node's address is known (the asynchronous parent-device report is not a separate event)")
 		c.Assume("the local node always has a VXLAN tunnel address when it exists (a local node without VTEP has no VXLAN device at all); routes for tunnel addresses themselves are outside the statement and ignored")
@@ -888,6 +889,19 @@ func TestVerif_C43(t *testing.T) {
 			}
 			if err := vk.LoadReplay(rf, &d); err != nil {
 				c.ToolError(err.Error())
+				return
+			}
+			if strings.HasPrefix(d.Spec, "managers-") {
+				fails, err := hbfs.Replay(c43MSpec(d.Spec, 99, false), d.History)
+				if err != nil {
+					c.ToolError(err.Error())
+				}
+				for _, f := range fails {
+					c.Violation(f.Key, map[string]any{"spec": d.Spec, "history": d.History, "msg": f.Msg})
+				}
+				c.Add("states", 1)
+				c.Add("transitions", int64(len(d.History)))
+				c.Sample(map[string]any{"replayed": d.History})
 				return
 			}
 			cfg := c43Cfg{batched: strings.Contains(d.Spec, "batched"), v6: strings.Contains(d.Spec, "-v6")}
@@ -963,6 +977,10 @@ func TestVerif_C43(t *testing.T) {
 		// 5. IPv6 twin: set/delete incl. re-addressing of the local node (/64 <-> /128) and of the remote nodes
 		hbfs.Explore(c, c43Spec(c43Cfg{v6: true}, "routes-atomic-base-empty-graph-v6", c.Pick(3, 5), true))
 		hbfs.Explore(c, c43Spec(c43Cfg{v6: true, base: c43Bases["vxlanX6"]}, "routes-atomic-base-vxlanX6-graph-v6", c.Pick(2, 4), true))
+		// 6. manager-level message system: routes, remote VTEPs and host metadata as independent messages, apply as a
+		//    free event (route first and VTEP in a later apply; VTEP removed, apply, re-added, apply; ...)
+		hbfs.Explore(c, c43MSpec("managers-messages-graph", c.Pick(6, 10), true))
+		hbfs.Explore(c, c43MSpec("managers-messages-tree", c.Pick(3, 4), false))
 		// 4. no reliance on the state key
 		hbfs.Explore(c, c43Spec(c43Cfg{base: c43Bases["vxlanX"]}, "routes-atomic-base-vxlanX-tree", c.Pick(2, 3), false))
 	})
